@@ -7,7 +7,7 @@ a feature mask and size bounds.  Two families:
            LOCATE, VIEW PRINT, PLAY, BLOAD/BSAVE/KILL, PRINT USING, ^)
 
 Every choice comes from the `random.Random` passed in."""
-from .ast import (NUM, RANK, CMP, LOGIC, expr_type, TypeEnv, number_stmts,
+from .qast import (NUM, RANK, CMP, LOGIC, expr_type, TypeEnv, number_stmts,
                   name_type, paren_depth, pe)
 
 INT_MAX = {'%': 32767, '&': 2147483647}
